@@ -783,10 +783,12 @@ class CompositeRepetitionCodeDescription(IRepetitionCodeDescription):
                 filtered_gate_operations.append(operation)
 
             # Force only required parking operations
-            filtered_park_operations: List[Operation[IQubitID]] = _gate_sequence.park_operations
-            if self._only_required_parking_operations:
-                edge_identifiers: List[IEdgeID] = [element.identifier for element in filtered_gate_operations]
-                filtered_park_operations = [Operation.type_park(element) for element in self._connectivity.qubit_ids if get_requires_parking(element=element, edge_ids=edge_identifiers, connectivity=self._connectivity)]
+            edge_identifiers: List[IEdgeID] = [element.identifier for element in filtered_gate_operations]
+            required_park_operations: List[Operation[IQubitID]] = [Operation.type_park(element) for element in self._connectivity.qubit_ids if get_requires_parking(element=element, edge_ids=edge_identifiers, connectivity=self._connectivity)]
+            filtered_park_operations: List[Operation[IQubitID]] = required_park_operations
+            if not self._only_required_parking_operations:
+                # Keep the base parking operations, add what the filtered gates additionally require
+                filtered_park_operations = _gate_sequence.park_operations + [operation for operation in required_park_operations if operation not in _gate_sequence.park_operations]
 
             result.append(GateSequenceLayer(
                 _park_operations=filtered_park_operations,
